@@ -7,6 +7,7 @@ import WD.Proofs.Pipeline.Theorems
 import WD.Proofs.Pipeline.FlatSpec
 import WD.Proofs.Pipeline.BurstFiles
 import WD.Proofs.Pipeline.BurstFlat
+import WD.Proofs.Pipeline.BurstGrow
 /-
   `_partial`: all initial trees, all histories of valid operations, recursive watch, in the regime "the stream
   drains after every operation"; library threads other than the inotify reader (their interplay is C04–C06, C12)
@@ -100,5 +101,17 @@ example :
     ((Sys.start fs0 true false).run ops).1.stopped = true ∧
     (((Sys.start fs0 true false).run ops).2.map (·.map PEv.toEvent)).drop 6 = [[⟨.DirDeletedEvent, "W", "", false⟩], []] := by
   decide +kernel
+
+
+/-- a nested burst (`mkdir`s and file creations at any depth, read as one batch) neither kills the reader nor stops
+    the emitter -/
+theorem no_crash_growth_burst_partial (fs0 : FS) (hwf : fs0.WF) (full : Bool) (pre burst : List Op)
+    (hv : allValid (Sys.start fs0 true full) pre = true) (hroot : Op.rmdir ["W"] ∉ pre)
+    (hb : allGrow ((Sys.start fs0 true full).run pre).1.fs burst = true) :
+    (((Sys.start fs0 true full).run pre).1.burst burst).1.crashed = false ∧
+    (((Sys.start fs0 true full).run pre).1.burst burst).1.stopped = false := by
+  obtain ⟨inv, hs, hc⟩ := after_history fs0 hwf full pre hv hroot
+  obtain ⟨_, h2, h3, _⟩ := burst_grow _ burst inv hs hc hb
+  exact ⟨h3, h2⟩
 
 end WD.C07
